@@ -662,15 +662,18 @@ pub fn run_binary(args: &[&str], stdin: Option<&[u8]>, cwd: &std::path::Path) ->
     let mut child = Command::new(BINARY)
         .args(args)
         .current_dir(cwd)
-        .stdin(if stdin.is_some() { Stdio::piped() } else { Stdio::null() })
+        // always a pipe (closed at once when there is no input): never depend on /dev/null being sane
+        .stdin(Stdio::piped())
         .stdout(Stdio::piped())
         .stderr(Stdio::piped())
         .env("NO_COLOR", "1")
         .spawn()
         .expect("cannot run the aplang binary");
-    if let Some(data) = stdin {
+    {
         let mut si = child.stdin.take().unwrap();
-        let _ = si.write_all(data);
+        if let Some(data) = stdin {
+            let _ = si.write_all(data);
+        }
     }
     let out = child.wait_with_output().unwrap();
     BinRun { code: out.status.code(), stdout: out.stdout, stderr: out.stderr }
